@@ -131,3 +131,8 @@ def check(ctx, world):
                         ctx.ob("Z-cycle", cname, ok, "serialize(restored) == serialize(original): cycles compose to the identity" if ok else
                                "re-serialising the restored instance gives different data: %s vs %s"
                                % (show(norm_codec(ser2[0].value), maxdepth=6) if ser2 else None, show(norm_codec(so.value), maxdepth=6)))
+
+    # Z3-codec: the inverse bytes_to_scalar(scalar_to_bytes(x)) == x used above is C15's K2/K4
+    # (encoder, decoder, decoder accepts every encoder output), re-run here for both groups
+    from .common import include
+    include(ctx, world, "c15", "Z3-codec", keep=lambda o: o.rule.startswith("K2") or o.rule.startswith("K4"))
